@@ -169,6 +169,14 @@ def process(ctx, c):
         T = None
         rec["numeric_only"] = str(ex)
     out, N, B, b_expr = "ok", None, None, None
+    # an unrelated conversion earlier in the same process: symbols of the same NAMES that carry assumptions
+    import sympy as _sp
+
+    try:
+        translate_expression(expression_from_sympy(_sp.Symbol("x", positive=True) * 2 + _sp.Symbol("y", negative=True)), SYMPY_DIALECT)
+    except Exception as ex:
+        rec["fails"].append(("prior:raises", "round trip of 2*x + y with x positive, y negative raised %s: %s" % (type(ex).__name__, str(ex)[:200])))
+        return rec
     try:
         n = expression_from_sympy(e)
     except NotImplementedError:
@@ -212,6 +220,9 @@ def process(ctx, c):
                     pass
         except (ZeroDivisionError, TypeError, ValueError, OverflowError):
             pass
+        foreign = [s_ for s_ in b_expr.free_symbols if s_ not in e.free_symbols and str(s_) in set(map(str, e.free_symbols))]
+        if foreign and not rec["fails"]:
+            rec["fails"].append(("symbols:identity", "%s translates back to %s whose symbol %s is not the source's symbol of that name (assumptions %s): assigning the source's symbols leaves it unevaluated, and sympy rewrites the expression under assumptions the source never made" % (e, b_expr, foreign[0], {k_: v_ for k_, v_ in foreign[0].assumptions0.items() if k_ in ("positive", "negative", "real", "integer")})))
         if set(map(str, b_expr.free_symbols)) != set(map(str, e.free_symbols)) and not rec["fails"]:
             # sympy may cancel a symbol (x - x); only a symbol that APPEARS from nowhere is wrong
             if not set(map(str, b_expr.free_symbols)) <= set(map(str, e.free_symbols)):
